@@ -208,6 +208,7 @@ def run(ctx):
         except (AssertionError, KeyError, ValueError, TypeError, IndexError, ZeroDivisionError, AttributeError) as e:
             ctx.ob(key + '/paths', False, 'path structure: the analysed function has the expected (branch-free / enumerated) shape', w, 'analysable', str(e))
     ctx.floor('roots analysed', done, len(roots))
+    ctx.floor('lift / cast / approx API uses generated (counted at implementation time)', len(roots), 452)
     mint_rule(ctx)
     az_rule(ctx)
 
